@@ -625,7 +625,7 @@ func c03Variants() []Variant {
 	return []Variant{
 		{Name: "commit-before-quorum", File: v, Old: "	r := OverThreshold(count, threshold, voteType != Certificate)\n", New: "	if voteType == Precommit && !v.shouldCert {\n		v.commit(blockHash, priority)\n	}\n	r := OverThreshold(count, threshold, voteType != Certificate)\n", Rule: "C03.Q1", Construct: "commit"},
 		{Name: "judge-single-vote-weight", File: v, Old: "v.judgeVoteCount(voteType, totalCount, threshold, msg.BlockHash, msg.Priority, validatorType)", New: "v.judgeVoteCount(voteType, vote.Votes, threshold, msg.BlockHash, msg.Priority, validatorType)", Rule: "C03.Q1", Construct: "judged-count"},
-		{Name: "skip-sortition", File: v, Old: "	err = v.verifySortitionFn(pubKey, data, lbType)\n	if err != nil {", New: "	err = v.verifySortitionFn(pubKey, data, lbType)\n	if false {", Rule: "C03.Q2", Construct: "count-after-sortition"},
+		{Name: "skip-sortition", File: v, Old: "	if err == errStaleSortition {\n		return nil, false\n	}\n	if err != nil {\n		logging.Error(\"verifyPriority msgPriorityProposal failed\", \"err\", err)\n		return err, true\n	}\n\n	if status == msgFuture", New: "	if err == errStaleSortition {\n		return nil, false\n	}\n\n	if status == msgFuture", Rule: "C03.Q2", Construct: "count-after-sortition"},
 		{Name: "skip-sender-check", File: v, Old: "	if addr != ev.Msg.addr {", New: "	if false && addr != ev.Msg.addr {", Rule: "C03.Q2", Construct: "count-after-sender-match"},
 		{Name: "stale-vote-accepted", File: "consensus/ucon/sortition_verifier.go", Old: "			return errStaleSortition", New: "			return nil", Rule: "C03.Q3", Construct: "verifySortition"},
 		{Name: "keep-double-voter-weight", File: "consensus/ucon/votes_mgr.go", Old: "			v.voteCounts[priorityAndHash.Hash] -= vote.Votes\n", New: "", Rule: "C03.Q4", Construct: "equivocator-weight-removed"},
